@@ -37,6 +37,7 @@ type LsnE struct {
 	Via     bool   `json:"via"`     // started at a bystander's request (two retained Add events: the request and the announcement) instead of ListenerStart (one)
 	Ext     bool   `json:"ext"`     // External instead of SMB
 	Rewrite string `json:"rewrite"` // what happens to it while the newcomer is inside its replay: remove | error | none
+	Rel     string `json:"rel,omitempty"` // scale cases: "" = at Pos; just-before-pause | just-after-pause = its Add event(s) sit right before / right after the retained event at which the newcomer's connection blocks
 }
 
 type CaseE struct {
@@ -48,7 +49,92 @@ type CaseE struct {
 	Before    int        `json:"before"`     // events every producer emits before the newcomer starts to log in
 	Listeners []LsnE     `json:"listeners"`
 	EvRemove  int        `json:"ev_remove"` // -1: none; otherwise EventRemove() of the retained event at this permille position, inside the window
+	PauseEv   int        `json:"pause_ev,omitempty"` // scale cases (> 0): the newcomer's connection blocks after exactly this many retained events of its replay have been written (one websocket message each), instead of PauseAt
 }
+
+// The threshold-adjacent pool of the scale dimension (shared by the sub-checks of C11).
+var scalePool = []int{63, 64, 65, 127, 128, 129, 255, 256, 257, 511, 512, 513, 999, 1000, 1001, 1023, 1024, 1025, 2047, 2048, 2049, 4095, 4096, 4097, 8191, 8192, 8193}
+
+func scaleBucket(n int) string {
+	switch {
+	case n < 63:
+		return "<63"
+	case n <= 129:
+		return "64-129"
+	case n <= 513:
+		return "255-513"
+	case n <= 1025:
+		return "999-1025"
+	case n <= 4097:
+		return "2047-4097"
+	}
+	return "8191+"
+}
+
+func poolFrom(lo, hi int) []int {
+	var out []int
+	for _, v := range scalePool {
+		if v >= lo && v <= hi {
+			out = append(out, v)
+		}
+	}
+	return out
+}
+
+// drawScale draws a count from the pool values in [lo, hi]: first the bucket, then the value
+// inside it (rapid prefers the first elements of a list; drawn flat, the large buckets at the
+// end of the pool would hardly ever be reached).
+func drawScale(t *rapid.T, lo, hi int, label string) int {
+	vals := poolFrom(lo, hi)
+	var buckets []string
+	by := map[string][]int{}
+	for _, v := range vals {
+		b := scaleBucket(v)
+		if _, ok := by[b]; !ok {
+			buckets = append(buckets, b)
+		}
+		by[b] = append(by[b], v)
+	}
+	b := rapid.SampledFrom(buckets).Draw(t, label+"-bucket")
+	return rapid.SampledFrom(by[b]).Draw(t, label)
+}
+
+// genScaleE: the scale dimension of (e).  A long retained history (999-8193 events through
+// the cheapest real producer, EventAppend+EventBroadcast), the pause placed after a
+// threshold-adjacent NUMBER OF EVENTS of the replay, 1-6 listeners whose Add events sit at
+// generated positions or right before / right after the pause point, and producers that
+// emit up to 1025 events each while the newcomer replays.
+func genScaleE(t *rapid.T, c *CaseE) {
+	c.History = drawScale(t, 999, 8193, "scale-history")
+	c.EventSize = rapid.SampledFrom([]int{0, 0, 0, 200}).Draw(t, "scale-event-size")
+	c.PauseEv = 1
+	if rapid.IntRange(0, 9).Draw(t, "scale-pause-first") > 0 {
+		c.PauseEv = drawScale(t, 63, c.History, "scale-pause-ev")
+	}
+	c.PauseAt = c.PauseEv * 1000 / c.History
+	c.Listeners = nil
+	nl := rapid.IntRange(1, 6).Draw(t, "scale-listeners")
+	for i := 0; i < nl; i++ {
+		c.Listeners = append(c.Listeners, LsnE{
+			Pos:     rapid.SampledFrom([]int{0, 100, 400, 700, 1000}).Draw(t, "lpos"),
+			Rel:     rapid.SampledFrom([]string{"", "", "just-before-pause", "just-after-pause"}).Draw(t, "lrel"),
+			Via:     c.Bystand > 0 && rapid.Bool().Draw(t, "lvia"),
+			Ext:     rapid.Bool().Draw(t, "lext"),
+			Rewrite: rapid.SampledFrom([]string{"remove", "remove", "remove", "error", "none"}).Draw(t, "rewrite"),
+		})
+	}
+	if c.PauseEv < 16 {
+		for i := range c.Listeners {
+			c.Listeners[i].Rel = "" // no room before the pause point
+		}
+	}
+	if rapid.Bool().Draw(t, "scale-producers") {
+		for i := range c.Producers {
+			c.Producers[i].N = drawScale(t, 63, 1025, "scale-n")
+		}
+	}
+}
+
 
 func genE(t *rapid.T) CaseE {
 	var c CaseE
@@ -79,6 +165,9 @@ func genE(t *rapid.T) CaseE {
 		})
 	}
 	c.EvRemove = rapid.SampledFrom([]int{-1, -1, 0, 200, 500, 950}).Draw(t, "ev-remove")
+	if rapid.IntRange(0, 24).Draw(t, "scale") == 24 {
+		genScaleE(t, &c)
+	}
 	return c
 }
 
@@ -161,6 +250,8 @@ func runE(raw json.RawMessage) *core.Violation {
 		LsnE
 		name string
 		idx  int // index of the history event before which it was started
+		at   int // scale cases (Rel set): started as soon as the retained list has this many entries
+		done bool
 	}
 	var lsns []*lsn
 	for i, l := range c.Listeners {
@@ -169,7 +260,29 @@ func runE(raw json.RawMessage) *core.Violation {
 		if (i+l.Pos/100)%6 == 1 {
 			name = " EL" + fmt.Sprint(i+1) + " "
 		}
-		lsns = append(lsns, &lsn{LsnE: l, name: name, idx: l.Pos * c.History / 1000})
+		ln := &lsn{LsnE: l, name: name, idx: l.Pos * c.History / 1000, at: -1}
+		if c.PauseEv > 0 {
+			// entries 0..PauseEv-1 of the retained list are written before the connection blocks.
+			// The listeners placed right before the pause take at most two entries each, the last
+			// of them entries PauseEv-3 and PauseEv-2 (replayed); those right after start at entry
+			// PauseEv+1 (not yet replayed).
+			switch l.Rel {
+			case "just-before-pause":
+				later := 0
+				for _, m := range c.Listeners[i+1:] {
+					if m.Rel == "just-before-pause" {
+						later++
+					}
+				}
+				ln.idx, ln.at = c.History, c.PauseEv-3-2*later
+				if ln.at < 1 {
+					ln.at = 1
+				}
+			case "just-after-pause":
+				ln.idx, ln.at = c.History, c.PauseEv+1
+			}
+		}
+		lsns = append(lsns, ln)
 	}
 	startListener := func(l *lsn) *core.Violation {
 		if l.Via && len(bystanders) > 0 {
@@ -202,7 +315,8 @@ func runE(raw json.RawMessage) *core.Violation {
 	}
 	for i := 0; i <= c.History; i++ {
 		for _, l := range lsns {
-			if l.idx == i {
+			if !l.done && (l.idx == i || (l.at >= 0 && len(w.retained) >= l.at)) {
+				l.done = true
 				if v := startListener(l); v != nil {
 					return v
 				}
@@ -292,7 +406,12 @@ func runE(raw json.RawMessage) *core.Violation {
 		return core.V("harness|dial", "%v", err)
 	}
 	mark := int64(400 + replayBytes*c.PauseAt/1000) // past the Success frame, inside the replay
-	nc.Peer.PauseAfter(mark)
+	if c.PauseEv > 0 {
+		// counted in websocket messages: the Success frame, then PauseEv retained events
+		nc.Peer.PauseAfterWrites(1 + c.PauseEv)
+	} else {
+		nc.Peer.PauseAfter(mark)
+	}
 	nc.SendJSON(wsx.LoginPkg(user, "pw-"+user))
 	// the snapshot the newcomer is entitled to: the retained list now, ending with its own arrival
 	var snapshot []string
@@ -559,7 +678,10 @@ func classifyE(c CaseE) core.Class {
 		if l.Rewrite == "remove" {
 			rem = true
 			// the Add event has been replayed already when it sits before the pause point
-			if l.Pos < c.PauseAt {
+			if l.Rel != "" {
+				cl.Labels = append(cl.Labels, "scale:removal-of-listener-added-"+l.Rel)
+			}
+			if l.Rel == "just-before-pause" || (l.Rel == "" && l.Pos < c.PauseAt) {
 				before = true
 				cl.Labels = append(cl.Labels, "removal-before-pause-point(Add already replayed)")
 			} else {
@@ -575,8 +697,34 @@ func classifyE(c CaseE) core.Class {
 	if c.EvRemove >= 0 {
 		cl.Labels = append(cl.Labels, "EventRemove-inside-window")
 	}
-	cl.Labels = append(cl.Labels, fmt.Sprintf("pause-at-permille:%d", c.PauseAt), fmt.Sprintf("event-size:%d", c.EventSize), fmt.Sprintf("bystanders:%d", c.Bystand))
 	cl.NonTrivial = true
+	if c.PauseEv > 0 {
+		nrw, maxN := 0, 0
+		for _, l := range c.Listeners {
+			if l.Rewrite != "none" {
+				nrw++
+			}
+		}
+		if c.EvRemove >= 0 {
+			nrw++
+		}
+		for _, p := range c.Producers {
+			if p.N > maxN {
+				maxN = p.N
+			}
+		}
+		cl.Labels = append(cl.Labels, "scale:retained-events:"+scaleBucket(c.History), "scale:pause-after-events:"+scaleBucket(c.PauseEv),
+			fmt.Sprintf("scale:rewrites-during-one-replay:%d", nrw), fmt.Sprintf("event-size:%d", c.EventSize), fmt.Sprintf("bystanders:%d", c.Bystand))
+		if maxN >= 63 {
+			cl.Labels = append(cl.Labels, "scale:events-per-producer-during-replay:"+scaleBucket(maxN))
+		}
+		if rem {
+			cl.Labels = append(cl.Labels, "scale:listener-removed-during-replay-of-long-history")
+		}
+		cl.Fingerprint = fmt.Sprintf("scale|h=%s|pause=%s|sz=%d|by=%d|np=%d|N=%s|rw=%d|rem=%v/%v/%v/%v|evrem=%v", scaleBucket(c.History), scaleBucket(c.PauseEv), c.EventSize, c.Bystand, len(c.Producers), scaleBucket(maxN), nrw, rem, before, after, two, c.EvRemove >= 0)
+		return cl
+	}
+	cl.Labels = append(cl.Labels, fmt.Sprintf("pause-at-permille:%d", c.PauseAt), fmt.Sprintf("event-size:%d", c.EventSize), fmt.Sprintf("bystanders:%d", c.Bystand))
 	cl.Fingerprint = fmt.Sprintf("h=%d|sz=%d|by=%d|pause=%d|np=%d|console=%v|chat=%v|before=%v|rem=%v/%v/%v/%v|evrem=%v", c.History/40, c.EventSize, c.Bystand, c.PauseAt, len(c.Producers), kinds["console"], kinds["chat"], c.Before > 0, rem, before, after, two, c.EvRemove >= 0)
 	return cl
 }
@@ -584,7 +732,7 @@ func classifyE(c CaseE) core.Class {
 func TestC11e(t *testing.T) {
 	core.Run(t, core.Spec[CaseE]{
 		Property: "C11", Sub: "e",
-		Rule: "0-2 operators online; 8-120 retained events of 0-20000 bytes with the Add events of 0-3 listeners (SMB / External; ListenerStart = one Add event, or a bystander's request = request + announcement) at generated positions; then a newcomer logs in over a connection that stops accepting data after a generated fraction of its replay (0.1%-90%). While it is provably blocked inside the replay: 1-3 producers (EventAppend+EventBroadcast, AgentConsole, a bystander's chat) emit 1-5 events each, and every operation that rewrites the retained list is carried out - ListenerRemove of listeners whose Add events sit before / after the pause point, EventRemove of a retained event, EventListenerError. The connection accepts data again only after producer 0 has recorded an event and the removals have returned. Oracle (everything the newcomer received before the echo of its final one-shot chat): Success; then its replay snapshot - the retained list as it was when it logged in, including the Add events of listeners removed meanwhile - exactly once and in order, interleaved with the events of the window (producers' events, the Remove and Error events) exactly once each, and nothing else; bystanders receive every event of the window exactly once in each producer's order. All cases non-trivial",
+		Rule: "0-2 operators online; 8-120 retained events of 0-20000 bytes with the Add events of 0-3 listeners (SMB / External; ListenerStart = one Add event, or a bystander's request = request + announcement) at generated positions; then a newcomer logs in over a connection that stops accepting data after a generated fraction of its replay (0.1%-90%). While it is provably blocked inside the replay: 1-3 producers (EventAppend+EventBroadcast, AgentConsole, a bystander's chat) emit 1-5 events each, and every operation that rewrites the retained list is carried out - ListenerRemove of listeners whose Add events sit before / after the pause point, EventRemove of a retained event, EventListenerError. The connection accepts data again only after producer 0 has recorded an event and the removals have returned. Oracle (everything the newcomer received before the echo of its final one-shot chat): Success; then its replay snapshot - the retained list as it was when it logged in, including the Add events of listeners removed meanwhile - exactly once and in order, interleaved with the events of the window (producers' events, the Remove and Error events) exactly once each, and nothing else; bystanders receive every event of the window exactly once in each producer's order. All cases non-trivial. SCALE dimension (one case in 10-20 of the 150 this sub-check runs in the quick tier; labels scale:*; the pool is cut at 8193 retained events, which one case affords in well under a second - the thorough tier reaches the same pool more often): the history has 999-8193 retained events from the threshold-adjacent pool {999,1000,1001, 1023,1024,1025, 2047,2048,2049, 4095,4096,4097, 8191,8192,8193} of 0 or 200 bytes, produced by the same EventAppend+EventBroadcast loop as the short histories; the newcomer's connection blocks after an exact NUMBER of retained events of its replay (1, or a pool value 63..8193 not above the history length; counted in websocket messages at the server-side connection), so that the pause falls before / at / after every power-of-two and round count; 1-6 listeners (with EventRemove up to 7 rewrites of the list during one replay) have their Add events at the generated permille positions or right before (already replayed) / right after (not yet replayed) the pause point; in half of these cases every producer emits 63-1025 events while the newcomer replays. The oracle is unchanged (it is linear) and must hold at that scale",
 		Gen:   genE, Check: checkE, Classify: classifyE,
 		Assumptions: []string{
 			"what a newcomer that is already inside its replay sees of a concurrent removal is taken from HEAD: its snapshot is unaffected, the removal follows as a live event (which may overtake the replayed Add event)",
